@@ -1,11 +1,11 @@
 CONSTANTS
   MaxMoves = 1
-  F <- F_nostreamid
+  F <- F_sound
   PreSet <- AllPre
   KindSet <- AllKinds
-  Deep = FALSE
-  RaceSet <- NoRace
+  Deep = TRUE
+  RaceSet <- AnyRace
 INIT Init
 NEXT Next
-INVARIANTS ReplyMatches
+INVARIANTS TypeOK Containment
 CHECK_DEADLOCK FALSE
